@@ -90,6 +90,45 @@ def _eval_benign(args):
     return fname, ("fired" if new else "silent"), "", sorted({x.rule for x in new})
 
 
+def _seed_dir() -> str:
+    return os.path.join(os.path.dirname(os.path.dirname(os.path.dirname(os.path.abspath(__file__)))), "seeded")
+
+
+def _eval_seed(args):
+    """Apply an independently seeded, dynamically confirmed breaking change in memory; the property must report it."""
+    prop, sid = args
+    from ..cli import build_run
+    from .udiff import apply_diff
+
+    base = SourceSet.load()
+    try:
+        with open(os.path.join(_seed_dir(), sid, "patch.diff"), encoding="utf-8") as f:
+            v = apply_diff(base, f.read())
+    except OSError:
+        v = None
+    if v is None:
+        return sid, "skipped", "patch does not apply to the current tree", []
+    from .. import report as _report
+
+    try:
+        run = build_run(prop, "quick", v)
+        new, _m, short = run.classify()
+    except AnalysisError as e:
+        cur = _report.CURRENT
+        if cur is not None and cur.prop == prop:
+            new, _m, _s = cur.classify()
+            if new:
+                return sid, "fired", f"(analysis stopped afterwards: {e})", sorted({x.rule for x in new})
+        return sid, "analysis-error", str(e), []
+    except Exception as e:  # pragma: no cover
+        return sid, "crash", "".join(traceback.format_exception_only(type(e), e)).strip(), []
+    if new:
+        return sid, "fired", "", sorted({x.rule for x in new})
+    if short:
+        return sid, "analysis-error", "; ".join(short), []
+    return sid, "silent", "", []
+
+
 def run(prop: str) -> int:
     from ..cli import build_run, load_prop
 
@@ -130,10 +169,44 @@ def run(prop: str) -> int:
                 bresults = list(ex.map(_eval_benign, bjobs))
         except Exception:
             bresults = [_eval_benign(j) for j in bjobs]
+    # independently seeded changes filed for this property (seeded/<id>/: patch, demonstration, meta)
+    import json as _json
+
+    sids = []
+    if os.path.isdir(_seed_dir()):
+        for sid in sorted(os.listdir(_seed_dir())):
+            mp = os.path.join(_seed_dir(), sid, "meta.json")
+            if os.path.exists(mp):
+                try:
+                    with open(mp, encoding="utf-8") as f:
+                        if _json.load(f).get("breaks_property") == prop:
+                            sids.append(sid)
+                except (OSError, ValueError):
+                    pass
+    sresults = []
+    if sids:
+        sjobs = [(prop, sid) for sid in sids]
+        try:
+            with ProcessPoolExecutor(max_workers=min(len(sjobs), os.cpu_count() or 4, 16)) as ex:
+                sresults = list(ex.map(_eval_seed, sjobs))
+        except Exception:
+            sresults = [_eval_seed(j) for j in sjobs]
     by_id = {m.id: m for m in mutants}
     killed = survived = twins_ok = twins_flagged = skipped = 0
     problems: list[str] = []
     table = []
+    seeds_reported = seeds_skipped = 0
+    for sid, status, info, rules in sresults:
+        table.append({"id": f"seeded:{sid}", "expect": "fire", "status": status, "rules": rules, "info": info})
+        if status == "fired":
+            seeds_reported += 1
+            killed += 1
+        elif status == "skipped":
+            seeds_skipped += 1
+            skipped += 1
+        else:
+            survived += 1
+            problems.append(f"seeded change {sid} (confirmed to break {prop}) was not reported ({status} {info})")
     for mid, status, info, rules in results:
         m = by_id[mid]
         table.append({"id": mid, "expect": m.expect, "status": status, "rules": rules, "info": info})
@@ -178,12 +251,13 @@ def run(prop: str) -> int:
             twins_flagged += 1
             problems.append(f"agent-written behaviour-preserving refactoring {fname} was flagged ({status} {rules} {info})")
     main.extra["sensitivity_audit"] = {
-        "mutants": len([m for m in mutants if m.expect == "fire"]),
+        "mutants": len([m for m in mutants if m.expect == "fire"]) + len(sresults),
         "killed": killed,
         "survived": survived,
         "twins": len([m for m in mutants if m.expect == "silent"]) + len(vresults) + len(bresults),
         "whole_package_variants": [name for name, *_ in vresults],
         "benign_refactorings": {"files": len(bresults), "silent": benign_ok, "skipped": benign_skipped},
+        "seeded_changes": {"files": len(sresults), "reported": seeds_reported, "skipped": seeds_skipped},
         "twins_silent": twins_ok,
         "twins_flagged": twins_flagged,
         "skipped": skipped,
